@@ -65,26 +65,46 @@ COEFF = {("attr", SELF, "alpha"): "alpha", ("attr", SELF, "beta"): "beta", ("att
 
 # ------------------------------------------------------------------ dispatch evaluation
 
+_ORD = {"Lt": lambda a, b: a < b, "LtE": lambda a, b: a <= b, "Gt": lambda a, b: a > b, "GtE": lambda a, b: a >= b,
+        "Eq": lambda a, b: a == b, "NotEq": lambda a, b: a != b, "Is": lambda a, b: a == b, "IsNot": lambda a, b: a != b}
+
+
 def eval_cond(rm, cls, cond, dvar, value):
-    """Truth of a dispatch condition for dispatch variable `dvar` = value; None if the condition is not about dvar."""
-    if cond[0] == "cmp" and len(cond[1]) == 1:
+    """Truth of a dispatch condition for dispatch variable `dvar` = value; None if the condition is not about dvar.  Understood:
+    (chained) comparisons of the dispatch variable with constants / enum members (== != is < <= > >=, either side), membership in a
+    display, a range or the keys of a dict display."""
+    def is_dvar(x):
+        return x == ("attr", SELF, dvar) or (dvar == "reaction_type" and x == ("attr", ("param", "reac"), "reaction_type")) \
+            or (x[0] == "call" and x[1] == ("global", "int") and len(x[2]) == 1 and not x[3] and is_dvar(x[2][0]))
+
+    def val(x):
+        return value if is_dvar(x) else rm.enum_of_ir(cls, x)
+    if cond[0] == "cmp" and len(cond[1]) == 1 and cond[1][0] in ("In", "NotIn"):
         op = cond[1][0]
         l, r = cond[2]
-        if l == ("attr", SELF, dvar) or (dvar == "reaction_type" and l == ("attr", ("param", "reac"), "reaction_type")):
-            if op in ("Eq", "NotEq"):
-                rv = rm.enum_of_ir(cls, r)
-                if rv is None:
-                    return None
-                return (rv == value) if op == "Eq" else (rv != value)
-            if op in ("In", "NotIn"):
-                vals = None
-                if r[0] in ("list", "tuple", "set"):
-                    vals = [rm.enum_of_ir(cls, x) for x in r[1]]
-                elif r[0] == "call" and r[1] == ("global", "range") and all(a[0] == "const" for a in r[2]):
-                    vals = list(range(*[a[1] for a in r[2]]))
-                if vals is None or any(v is None for v in vals):
-                    return None
-                return (value in vals) if op == "In" else (value not in vals)
+        if is_dvar(l):
+            vals = None
+            if r[0] in ("list", "tuple", "set"):
+                vals = [rm.enum_of_ir(cls, x) for x in r[1]]
+            elif r[0] == "dict":
+                vals = [rm.enum_of_ir(cls, k_) for k_, _v in r[1]]
+            elif r[0] == "call" and r[1] == ("global", "range") and all(a[0] == "const" for a in r[2]):
+                vals = list(range(*[a[1] for a in r[2]]))
+            elif r[0] == "call" and r[1] in (("global", "frozenset"), ("global", "set"), ("global", "tuple"), ("global", "list")) and len(r[2]) == 1 and not r[3] \
+                    and r[2][0][0] in ("list", "tuple", "set"):
+                vals = [rm.enum_of_ir(cls, x) for x in r[2][0][1]]
+            if vals is None or any(v is None for v in vals):
+                return None
+            return (value in vals) if op == "In" else (value not in vals)
+        return None
+    if cond[0] == "cmp" and all(o in _ORD for o in cond[1]) and any(is_dvar(x) for x in cond[2]):
+        xs = [val(x) for x in cond[2]]
+        if any(x is None for x in xs):
+            return None
+        try:
+            return all(_ORD[o](a, b) for o, a, b in zip(cond[1], xs, xs[1:]))
+        except TypeError:
+            return None
     return None
 
 
@@ -381,24 +401,30 @@ def _r2_r3(ctx, rm, pkg, allv):
                           f"{txt!r} == reference law" if a.equiv(b) else "rate template differs from the reference law of this database code",
                           expected=f"{reftxt}  [{b.show()[:160]}]", found=f"{txt}  [{a.show()[:160]}]")
     ctx.floor("R2", "code table entries", total, 44)
-    # sibling agreement: grain-delegated list of Reaction.rateexpr == types of Grain.rateexpr
+    # sibling agreement: the types Reaction.rateexpr hands to the grain == the types Grain.rateexpr dispatches to a rate builder.  Decided
+    # by EVALUATING both dispatches for every ReactionType value (whatever the spelling: list / tuple / set / class-level table /
+    # comparison chain), not by reading a list off the source
     gv = rm.variants("Grain")
-    gtypes = set()
-    for v in gv:
-        if v.kind == "delegate":
-            cond, pol = v.conds[-1]
-            if pol and cond[0] == "cmp" and cond[1] == ("Eq",):
-                gtypes.add(rm.enum_of_ir("Grain", cond[2][1]))
-    rtypes = set()
-    for v in allv["Reaction"]:
-        if v.kind == "delegate":
-            cond, pol = v.conds[-1]
-            if pol and cond[0] == "cmp" and cond[1] == ("In",) and cond[2][1][0] in ("list", "tuple"):
-                rtypes |= {rm.enum_of_ir("Reaction", x) for x in cond[2][1][1]}
+    gtypes, rtypes, open_ = set(), set(), set()
+    for tval in sorted(set(rm.basic_types().values())):
+        for who, vs, acc in (("Grain", gv, gtypes), ("Reaction", allv["Reaction"], rtypes)):
+            arms = arms_for(rm, who, vs, "reaction_type", tval)
+            # (the grain's own `if rate is NotImplemented: raise` is about what the builder returns, not about which builder is taken)
+            about_result = lambda c: any(x == ("global", "NotImplemented") for x in walk(c))
+            und = {show(c)[:70] for _, extra in arms for c, _p in extra if not _about_law(c) and not about_result(c)}
+            kinds = {a.kind for a, extra in arms if not any(about_result(c) and p_ for c, p_ in extra)}
+            if arms and kinds == {"delegate"}:
+                acc.add(tval)
+            elif und and "delegate" in kinds:
+                open_ |= und
     ctx.floor("R2", "grain-dispatched types", len(gtypes), 9)
-    ctx.check(gtypes == rtypes and None not in gtypes, "R2", "Reaction.rateexpr grain list == Grain.rateexpr chain", ("naunet/grains/grain.py", 0),
-              "the types the native class hands to the grain are exactly the types the grain dispatches on",
-              expected=str(sorted(x for x in gtypes if x is not None)), found=str(sorted(x for x in rtypes if x is not None)))
+    if open_ and gtypes != rtypes:
+        ctx.unrec("R2", "Reaction.rateexpr grain list == Grain.rateexpr chain", ("naunet/grains/grain.py", 0),
+                  f"cannot decide which types are handed to / dispatched by the grain model: condition(s) {sorted(open_)[:3]} are not understood")
+    else:
+        ctx.check(gtypes == rtypes, "R2", "Reaction.rateexpr grain list == Grain.rateexpr chain", ("naunet/grains/grain.py", 0),
+                  "the types the native class hands to the grain are exactly the types the grain dispatches on",
+                  expected=str(sorted(gtypes)), found=str(sorted(rtypes)))
 
 
 # ------------------------------------------------------------------ R4
@@ -567,3 +593,15 @@ MUTANTS += [
     {"name": "kida-helper-result-not-cleaned", "edits": _kida_pipeline("self._law()"), "rules": ["R1"]},
     {"name": "grain-class-table-missing-type", "edits": _grain_table("GRAIN_DESORB_H2"), "rules": ["R2"]},
 ]
+
+
+def _kida_dict(const):
+    """two of the laws looked up in a local table keyed by the formula number"""
+    return {"file": K, "old": _KIDA_ARM1, "new": '        laws = {1: f"{a} * zeta", 4: f"{a} * {b} * (0.62 + ' + const + '*{c}*sqrt(300.0/Tgas))"}\n'
+            '        if formula in laws:\n            rate = laws[formula]\n        elif formula == 2:\n'}
+
+
+BENIGN += [dict(_kida_dict("0.4767"), name="kida-laws-in-local-dict"),
+           {"name": "kida-formula-range-test", "file": K, "old": "        elif formula == 6:\n", "new": "        elif 5 < formula <= 6:\n"}]
+MUTANTS += [dict(_kida_dict("0.4667"), name="kida-local-dict-wrong-constant", rules=["R3"]),
+            {"name": "kida-range-test-swallows-ip2", "file": K, "old": "        elif formula == 5:\n", "new": "        elif formula > 5:\n", "rules": ["R2", "R3"]}]
